@@ -75,6 +75,33 @@ def gen_cases(ctx):
         kp2[e1] = "1"; kp2[e1 + 1] = "1"
         cases.append(("vandermonde-singular-control", True,
                       "c07 rt vandermonde %d %d 2 1 %d %s %s" % (d, p, rng.randrange(1 << 30), "".join(kd), "".join(kp2))))
+    # PAR2-Vandermonde systems whose leading minor is singular but which are solvable: the elimination has to
+    # exchange rows while the augmented side is wider than the square part.  Columns j1 < j2 whose constants
+    # 2^a, 2^b have (b-a) a multiple of 255 (resp. 257) make rows {0, 257} (resp. {0, 255}) dependent on them.
+    E = [i for i in range(2000) if i % 3 and i % 5 and i % 17 and i % 257]
+    pairs = []
+    for mod_, row in ((255, 257), (257, 255)):
+        for j1 in range(0, 6):
+            for j2 in range(j1 + 1, 400):
+                if (E[j2] - E[j1]) % mod_ == 0:
+                    pairs.append((j1, j2, row))
+                    break
+    for (j1, j2, row) in pairs[: (6 if not thorough else 12)]:
+        d = j2 + 12
+        p = row + 3
+        j3 = j2 + 1
+        kd = ["1"] * d
+        for j in (j1, j2, j3):
+            kd[j] = "0"
+        kp = ["0"] * p
+        for r in (0, row, row + 1):
+            kp[r] = "1"
+        cases.append(("vandermonde-rowswap", True,
+                      "c07 rt vandermonde %d %d %d %d %d %s %s" % (d, p, rng.choice([1, 3]), rng.choice([1, 17]), rng.randrange(1 << 30), "".join(kd), "".join(kp))))
+    # large valid Cauchy codes: the constructor must succeed (new_coder = Ok by its definition and C07_cauchy_wf);
+    # run on the implementation only - the extracted model is quadratic in d for unary indices
+    for kind, d, p in (("cauchy", 40000, 2), ("cauchy", 32769, 2), ("cauchy", 2, 40000), ("cauchy", 3, 32770)):
+        cases.append(("limits-implonly", False, "c07 new %s %d %d 1" % (kind, d, p)))
     return cases
 
 
@@ -88,10 +115,13 @@ def run(ctx):
         cases = gen_cases(ctx)
     lines = [c[2] for c in cases]
     impl = ctx.run_lines(vh, lines, timeout=3000)
-    mod = ctx.run_lines(model, lines, timeout=3000)
+    mlines = [c[2] for c in cases if c[0] != "limits-implonly"]
+    mres = dict(zip(mlines, ctx.run_lines(model, mlines, timeout=3000)))
+    mod = [mres.get(c[2], "ok") for c in cases]
     dist = {"class": {}, "outcome": {}}
     reported = 0
     singular_seen = 0
+    matrix_only = []
     for (cls, nontriv, line), i, m in zip(cases, impl, mod):
         dist["class"][cls] = dist["class"].get(cls, 0) + 1
         oc = " ".join(m.split()[:2]) if m.startswith("err") else m.split()[0]
@@ -112,10 +142,25 @@ def run(ctx):
             why = "implementation panicked"
         elif i != m:
             why = "outcome differs from the proved model"
-        if why and reported < 5:
+        # a different but equally valid parity matrix changes only the parity digest: the property still holds on
+        # this case, so it is a broken correspondence (reported after the search over the remaining cases)
+        only_matrix = False
+        if why == "outcome differs from the proved model":
+            ti, tm = i.split(), m.split()
+            if len(ti) == len(tm) and ti[0] == tm[0] and (ti[0] == "ok" and ti[-1] == "exact" == tm[-1] or ti[0] == "err" and ti[1] == tm[1]):
+                only_matrix = True
+        if why and only_matrix:
+            matrix_only.append((cls, nontriv, line, i, m))
+        elif why and reported < 5:
             reported += 1
             ctx.violation("%s: %s; impl=%s model=%s; case=%s" % (cls, why, i[:80], m[:80], line[:120]),
                           {"cases_full": [[cls, nontriv, line]], "impl": i, "model": m, "class": {"class": cls}})
+    if matrix_only and reported == 0:
+        cls, nontriv, line, i, m = matrix_only[0]
+        ctx.violation("generated parity differs from the model's matrix on %d cases although every outcome is correct (first: %s impl=%s model=%s)" % (len(matrix_only), line[:100], i[:60], m[:60]),
+                      {"cases_full": [[cls, nontriv, line]], "impl": i, "model": m, "class": {"class": "matrix-only"}}, no_failing_input=True)
+    if False:
+        pass
     if not ctx.replay and singular_seen == 0:
         ctx.violation("the constructed PAR2-Vandermonde singular minors were not singular in the model: generator no longer reaches the singular branch",
                       {"cases_full": [], "class": {"class": "generator"}}, no_failing_input=True)
